@@ -293,8 +293,14 @@ func GenModel(t *rapid.T, o GenOptions) (*StructSpec, string) {
 	defer func() {
 		if !o.NoKeys {
 			crossName(t, s, o)
+			if o.Migration && rapid.IntRange(0, 3).Draw(t, "colindex") == 0 {
+				AddColumnNamedIndex(t, s, "colindex")
+			}
 		}
 	}()
+	if !o.NoKeys && !o.NoEmbedded {
+		shadow(t, s)
+	}
 	pk := ""
 	if !o.NoKeys {
 		// auto time by field name
@@ -498,6 +504,19 @@ func GenRecords(t *rapid.T, m *Model, n int, fill KeyFill, ordinal int) *Records
 			}
 			l.Set(rec, v)
 		}
+		// shadowed fields get values too (they must not reach the column of the field that shadows them)
+		for _, l := range m.Shadowed {
+			set := true
+			for _, key := range l.GroupKeys() {
+				if isNil, ok := nilGroups[key]; !ok || isNil {
+					set = false
+				}
+			}
+			if set {
+				v, _ := l.Kind.Gen(t, fmt.Sprintf("r%d.shadowed.%s", i, l.GoPath))
+				l.Set(rec, v)
+			}
+		}
 		rs.Vals = append(rs.Vals, rec)
 	}
 	// a db-default column given by every record must be non-zero in every record (else gorm
@@ -565,10 +584,21 @@ func crossName(t *rapid.T, s *StructSpec, o GenOptions) {
 		}
 	}
 	walk(s, true)
+	names := map[string]int{}
+	for _, c := range all {
+		names[c.f.Name]++
+	}
 	valid := func() bool {
 		seen := map[string]bool{}
 		uni := map[string]bool{}
-		for _, l := range Build(s).Leaves {
+		m := Build(s)
+		// the only column two fields may share is the one of a generated shadowing pair
+		for _, l := range m.Shadowed {
+			if !l.Spec.Shadowed {
+				return false
+			}
+		}
+		for _, l := range m.Leaves {
 			k := strings.ToLower(l.DBName)
 			if seen[k] {
 				return false
@@ -593,7 +623,7 @@ func crossName(t *rapid.T, s *StructSpec, o GenOptions) {
 		// A: an unprefixed field without column tag (chains continue at the field whose name was just used)
 		var as []*FieldSpec
 		for _, c := range all {
-			if c.unprefix && c.f.Column == "" && (from == nil || c.f == from) && !strings.HasPrefix(c.f.Index, "index:idx") {
+			if c.unprefix && c.f.Column == "" && names[c.f.Name] == 1 && (from == nil || c.f == from) && !strings.HasPrefix(c.f.Index, "index:idx") {
 				as = append(as, c.f)
 			}
 		}
@@ -625,4 +655,49 @@ func crossName(t *rapid.T, s *StructSpec, o GenOptions) {
 		}
 		from = b
 	}
+}
+
+// shadow adds an outer field that takes the column of a field of an embedded
+// struct (the Go idiom of overriding a promoted field): same Go name, same
+// column, declared after the embedded struct (sometimes before it). The
+// embedded struct is unprefixed and embedded once; the shadowed field is plain.
+func shadow(t *rapid.T, s *StructSpec) {
+	if rapid.IntRange(0, 3).Draw(t, "shadow") != 0 {
+		return
+	}
+	uses := map[*StructSpec]int{}
+	for _, f := range s.Fields {
+		if f.Embedded != nil {
+			uses[f.Embedded]++
+		}
+	}
+	type cand struct {
+		pos  int
+		leaf *FieldSpec
+	}
+	var cands []cand
+	for i, f := range s.Fields {
+		if f.Embedded == nil || f.Prefix != "" || uses[f.Embedded] > 1 {
+			continue
+		}
+		for _, l := range f.Embedded.Fields {
+			if l.Embedded == nil && l.Default == nil && l.AutoTime == "" && l.Index == "" && !l.Unique && l.Check == "" && !l.NotNull && l.Size == 0 && !l.DistinctValue {
+				cands = append(cands, cand{i, l})
+			}
+		}
+	}
+	if len(cands) == 0 {
+		return
+	}
+	c := rapid.SampledFrom(cands).Draw(t, "shadow.field")
+	kinds := append(append([]*Kind{c.leaf.Kind}, Scalars...), KNullString, KLabel, KindByName("*int64"))
+	outer := &FieldSpec{Name: c.leaf.Name, Column: c.leaf.Column, Kind: rapid.SampledFrom(kinds).Draw(t, "shadow.kind")}
+	c.leaf.Shadowed = true
+	pos := c.pos + 1 + rapid.IntRange(0, len(s.Fields)-c.pos-1).Draw(t, "shadow.after")
+	if rapid.IntRange(0, 3).Draw(t, "shadow.before") == 0 {
+		pos = rapid.IntRange(0, c.pos).Draw(t, "shadow.pos")
+	}
+	s.Fields = append(s.Fields, nil)
+	copy(s.Fields[pos+1:], s.Fields[pos:])
+	s.Fields[pos] = outer
 }
